@@ -2,7 +2,7 @@
 from rulelib import *
 from report import CheckError
 from fdi import FDI, Const, Agg, Sym, Ref
-import c01, c04, c09
+import c01, c04, c06, c08, c09
 
 EXPLANATION = ("Narrow claim, necessary conditions only: R18.1 every OpenOptions chain of reopen_outputfile is create + append, never truncate / bare write, "
                "and opens the path stored in the active state (the temporary-file detour uses a derived name and removes it); the stored path is the "
@@ -59,6 +59,8 @@ def run(R, ctx):
             bad = bad or "the temporary file of the reopen detour is not removed"
         n += 1
     R.check('R18.1', f"{b.path}|flags", not bad and n >= 2, f"{n} rows: create + append on the stored path", f"reopen_outputfile: {bad}", where=b.loc(), sample={'rows': n})
+    # the path that is stored (and re-opened) is the configured path of the file, exactly as it was opened (shared with R06.1 / R16.6)
+    c06.open_flags(_Map(R, {'R06.1': 'R18.1'}), ctx, rule='R18.1')
     # stored path is kept current: rotation table (shared with R01.4)
     c01.swap_rules(_Map(R, {'R01.4': 'R18.2'}), ctx)
     # writer assignment in reopen only after Ok of the open it stores
@@ -88,6 +90,7 @@ def run(R, ctx):
         ok = all(any(C.dominates(rb, o, x) for o in oka) and any(C.dominates(rb, o, x) for o in okt) for x in repl)
     R.check('R18.3', f"{rb.path}|validate-build-then-replace", bool(ok), "assert_write_mode? and try_build_state()? dominate the replacement of the state",
             "reset replaces (or drops) the old state before the write mode was checked / the new state was built: on an error the logger is left without its old file", where=rb.loc())
+    c08.reset_seeding(R, ctx, 'R18.3')
     for m, verb in (('reopen_output', r'::reopen_output$'), ('trigger_rotation', r'::(trigger_rotation|rotate)$')):
         hb = ctx.body(rf'^logger_handle::LoggerHandle::{m}$')
         rows, I = c04.rows_of(ctx, hb.path, [verb, r'Iterator>::next$'], ni=[verb], k=2)
